@@ -272,13 +272,12 @@ class Measure(object):
     return ("return" if ok else "none", where[0], where[1], v)
 
 
-def poly_measure(meas, a, rhs, kinds, w64, extra_mag=0.0):
+def poly_measure(meas, a, rhs, kinds, w64):
   """Rows a.w >= rhs per unit; w64 (n, units)."""
   if a.shape[0] == 0:
     return
   vals = rhs[:, None] - a @ w64                       # (rows, units)
   mags = np.maximum(np.abs(a) @ np.abs(w64), np.abs(rhs)[:, None])
-  mags = np.maximum(mags, extra_mag)
   for kind in sorted(set(kinds)):
     idx = [i for i, k in enumerate(kinds) if k == kind]
     meas.add(kind, kind, vals[idx], mags[idx])
@@ -450,16 +449,16 @@ def mag_of(*xs):
 
 
 # ---------------------------------------------------------------- Lattice
-def lattice_weights(cfg, units, case, raw, out, aux):
+def lattice_weights(cfg, case, raw, out, aux):
   """float32 kernel of the drawn class for one Lattice (also RTL sub-layers).
 
   Returns (kernel or None, eps-scale)."""
-  a, rhs, kinds = lattice_system(cfg)
   if case["wmode"] == "raw":
     return raw, mag_of(raw, cfg["omin"], cfg["omax"])
   fk = c01.feasible_kernel(cfg, raw, aux, families=LAT_COVERED)
   if fk is None:
     return None, 0.0
+  a, rhs, _ = lattice_system(cfg)
   wm = with_margin(a, rhs, fk, case["margin"])
   out.label("margin:interior" if wm is not None else "margin:boundary")
   if wm is not None:
@@ -1065,7 +1064,7 @@ def run_case(case):
   if layer_kind == "lattice":
     n = int(np.prod(cfg["sizes"]))
     raw = S.materialize(case["weights"], (n, units))
-    k32, scale = lattice_weights(cfg, units, case, raw, out, case["aux"])
+    k32, scale = lattice_weights(cfg, case, raw, out, case["aux"])
     if k32 is None:
       out.discard = "uncertified-feasible-weights"
       return out
@@ -1248,8 +1247,7 @@ def run_case(case):
     if cfg["param"] == "all_vertices":
       n = int(np.prod(scfg["sizes"]))
       raw = S.materialize(desc, (n, scfg["units"]))
-      k32, sc = lattice_weights(scfg, scfg["units"], case, raw, out,
-                                case["aux"] + k)
+      k32, sc = lattice_weights(scfg, case, raw, out, case["aux"] + k)
       if k32 is None:
         out.discard = "uncertified-feasible-weights"
         return out
